@@ -69,11 +69,11 @@ _QVAL = re.compile(r'^(0(\.[0-9]{0,3})?|1(\.0{0,3})?)$')
 
 
 def parse_accept(header):
-    """-> list of (type, subtype, q, has_ext_params) or None when the header is outside the
+    """-> list of (type, subtype, q, params dict) or None when the header is outside the
     unambiguous grammar this model decides (quoted strings, bad q, '*' alone ...).  type/subtype keep
     the spelling of the header (see negotiate for how letter case is judged)."""
     if header is None:
-        return [('*', '*', 1.0, False)]
+        return [('*', '*', 1.0, {})]
     if header == '' or '"' in header or '\\' in header:
         return None
     out = []
@@ -88,7 +88,7 @@ def parse_accept(header):
         typ, sub = m.group(1), m.group(2)
         if typ == '*' and sub != '*':
             return None
-        q, ext = 1.0, False
+        q, ext = 1.0, {}
         seen_q = False
         for p in pieces[1:]:
             if '=' not in p:
@@ -103,38 +103,57 @@ def parse_accept(header):
                 seen_q = True
                 q = float(val)
             else:
-                ext = True
+                if name in ext or val != val.lower():
+                    return None         # repeated parameter / value whose letter case might matter: left open
+                ext[name] = val
         out.append((typ, sub, q, ext))
     return out
 
 
+def parse_media_type(mt):
+    """'type/subtype; a=1; b=2' -> (type, subtype, {a: '1', b: '2'})"""
+    pieces = [p.strip(' \t') for p in mt.split(';')]
+    typ, _, sub = pieces[0].partition('/')
+    params = {}
+    for p in pieces[1:]:
+        name, _, val = p.partition('=')
+        params[name.strip(' \t').lower()] = val.strip(' \t')
+    return typ, sub, params
+
+
 def _weight(cand, ranges, fold):
-    """weight of candidate 'type/subtype' or None when the header does not decide it uniquely.
+    """weight of a candidate media type: the q of the most specific matching range, as the public docs of
+    falcon.mediatypes.quality() define "most specific" (in decreasing priority): (1) main type matches exactly
+    rather than by wildcard, (2) subtype likewise, (3) parameter names and values are all the same on both
+    sides, (4) the number of MATCHING parameters; parameters present on one side only do not prevent a match,
+    a shared name with different values does; (5) among equally specific ranges the highest q counts.
     fold: compare type/subtype case-insensitively (RFC 9110 8.3.1) or exactly as spelled."""
-    ctyp, _, csub = cand.partition('/')
-    best_spec, best_q = 0, set()
-    for typ, sub, q, ext in ranges:
+    ctyp, csub, cparams = parse_media_type(cand)
+    best, best_q = None, 0.0
+    for typ, sub, q, params in ranges:
         if fold:
             typ, sub = typ.lower(), sub.lower()
-        if typ == ctyp and sub == csub:
-            spec = 3
-        elif typ == ctyp and sub == '*':
-            spec = 2
-        elif typ == '*' and sub == '*':
-            spec = 1
+        if typ == '*':
+            m1 = 0
+        elif typ == ctyp:
+            m1 = 1
         else:
             continue
-        if ext:
-            return None        # media-range parameters against a parameterless candidate: left open
-        if spec > best_spec:
-            best_spec, best_q = spec, {q}
-        elif spec == best_spec:
-            best_q.add(q)
-    if best_spec == 0:
-        return 0.0
-    if len(best_q) != 1:
-        return None
-    return next(iter(best_q))
+        if sub == '*':
+            m2 = 0
+        elif sub == csub:
+            m2 = 1
+        else:
+            continue
+        shared = set(params) & set(cparams)
+        if any(params[k] != cparams[k] for k in shared):
+            continue
+        score = (m1, m2, 1 if set(params) == set(cparams) else 0, len(shared))
+        if best is None or score > best:
+            best, best_q = score, q
+        elif score == best:
+            best_q = max(best_q, q)
+    return best_q if best is not None else 0.0
 
 
 def negotiate(header, candidates):
@@ -164,7 +183,7 @@ def negotiate(header, candidates):
         sub = sub.lower()       # the documented "+json"/"+xml" fallback reads the structured suffix case-insensitively
         if sub.endswith('+json') or sub.endswith('+xml'):
             if q <= 0.0 or ext:
-                return None
+                return None     # (a parameterised or refused vendor type: the fallback's reading is left open)
             suffix.add('+json' if sub.endswith('+json') else '+xml')
     allowed = set()
     if top > 0.0:
